@@ -68,6 +68,34 @@ def showReply : Option Reply → String
     | .noMoreRecentValue i tok ns seq =>
       s!"nmr {bytesToHex i.bytes} tok={if tok.isEmpty then "-" else bytesToHex tok} nodes={showOptNodes ns} seq={seq}"
 
+def hz (b : Bytes) : String := if b.isEmpty then "-" else bytesToHex b
+def showOptInt : Option Int → String
+  | none => "none"
+  | some i => toString i
+
+def showRequest (r : Request) : String :=
+  let rid := bytesToHex r.requesterId.bytes
+  match r.rtype with
+  | .ping => s!"ping {rid}"
+  | .findNode t => s!"find_node {rid} {bytesToHex t.bytes}"
+  | .getPeers t => s!"get_peers {rid} {bytesToHex t.bytes}"
+  | .getSignedPeers t => s!"get_signed_peers {rid} {bytesToHex t.bytes}"
+  | .getValue t seq _ => s!"get {rid} {bytesToHex t.bytes} {showOptInt seq}"
+  | .put tok (.announcePeer ih port implied) =>
+    s!"announce {rid} {hz tok} {bytesToHex ih.bytes} {port.toNat} {match implied with | none => "none" | some false => "0" | some true => "1"}"
+  | .put tok (.announceSignedPeer ih t k sig) =>
+    s!"announce_signed {rid} {hz tok} {bytesToHex ih.bytes} {t} {bytesToHex k} {bytesToHex sig}"
+  | .put tok (.putImmutable t v) => s!"put_imm {rid} {hz tok} {bytesToHex t.bytes} {hz v}"
+  | .put tok (.putMutable t v k seq sig salt cas) =>
+    s!"put_mut {rid} {hz tok} {bytesToHex t.bytes} {hz v} {bytesToHex k} {seq} {bytesToHex sig} {match salt with | none => "none" | some s => hz s} {showOptInt cas}"
+
+def showMsg (m : Message) : String :=
+  let head := s!"t={m.tid.toNat} v={match m.version with | none => "none" | some v => bytesToHex v} ip={match m.requesterIp with | none => "none" | some a => showAddr a} ro={if m.readOnly then 1 else 0}"
+  match m.mtype with
+  | .request r => s!"{head} q {showRequest r}"
+  | .response r => s!"{head} r {showReply (some (.response r))}"
+  | .error e => s!"{head} e {e.code} {hz e.description}"
+
 def optInt (s : String) : Option (Option Int) :=
   if s == "none" then some none else s.toInt?.map some
 
@@ -182,6 +210,26 @@ def step (st : DState) (line : String) : DState × String :=
   | ["tok", "val", addr, token] => (match st.tokens, parseAddr addr, hx token with
       | some t, some a, some tk => (st, toString (t.validate a.ip tk))
       | _, _, _ => (st, "bad-op"))
+  -- codec stream
+  | ["dec", h] => (st, match hx h with
+      | some bs => (match Krpc.fromBytes bs with
+        | .panic _ => "panic"
+        | .ok none => "err"
+        | .ok (some m) => s!"ok {showMsg m} | {bytesToHex (Krpc.toBytes m)}")
+      | none => "bad-op")
+  | ["bep", _name, h] => (st, match hx h with
+      | some bs => (match Krpc.fromBytes bs with
+        | .panic _ => "panic"
+        | .ok none => "err"
+        | .ok (some m) => s!"ok {showMsg m} | {bytesToHex (Krpc.toBytes m)}")
+      | none => "bad-op")
+  | ["encann", implied, port] => (st, match port.toNat? with
+      | some port =>
+        let imp : Option Bool := if implied == "none" then none else if implied == "0" then some false else some true
+        let m : Message := ⟨7, none, none, .request ⟨⟨List.replicate 20 1⟩,
+          .put [9, 9] (.announcePeer ⟨List.replicate 20 2⟩ (UInt16.ofNat port) imp)⟩, false⟩
+        bytesToHex (Krpc.toBytes m)
+      | none => "bad-op")
   -- api stream
   | ["mr", _flavour, items] =>
       let parsed : Option (List Api.Item) :=
